@@ -57,8 +57,10 @@ class Gen:
             info["pk"] = True
         if self.coin(0.25):
             cons.append("UNIQUE" + (" ON CONFLICT IGNORE" if self.coin(0.02) else ""))
-        if self.coin(0.05):
+        if self.coin(0.05) or (info["pk"] and self.coin(0.25)):
             cons.append("UNIQUE")  # duplicate
+            if self.coin(0.5):
+                cons.append("UNIQUE")
         if self.coin(0.25):
             cons.append("NOT NULL")
         if self.coin(0.05):
@@ -88,12 +90,20 @@ class Gen:
             out += " " + c
         return out, info
 
+    def respell(self, n):
+        """another spelling of the same identifier (SQL identifiers are case-insensitive)"""
+        r = self.r
+        if n[0] in '"[`' or not n.isascii() or not self.coin(0.25):
+            return n
+        return r.choice([n.upper(), n.lower(), n.capitalize(), n.swapcase()])
+
     def indexed_cols(self, names, maxn=3, allow_expr=False):
         r = self.r
         k = r.randint(1, min(maxn, len(names)))
         chosen = r.sample(names, k)
         out = []
         for n in chosen:
+            n = self.respell(n)
             s = n
             if allow_expr and self.coin(0.12):
                 s = r.choice(["%s + 1", "lower(%s)", "%s || 'x'", "abs(%s)", "%s * 2", "length(%s)"]) % n
@@ -285,6 +295,6 @@ def handle(req):
     meta = None
     if conn is not None:
         conn.execute("commit")
-        meta = oracle.table_meta(conn, with_counts=False)
+        meta = oracle.table_meta(conn, with_counts=True)
         conn.close()
     return {"programs": out, "generated": generated, "rejected_by_sqlite": rejected, "meta": meta}
